@@ -534,31 +534,96 @@ def rule_O1(ctx) -> None:
 # O2 __setattr__ bookkeeping on all paths
 
 
+def _table_snapshot(mod, table: str):
+    """how ProtoClassMetadata.__init__ fills self.<table>: ('stale', why, loc) when an entry is computed inside a loop from a
+    collection that the same loop is still growing; ('unknown', why, loc) otherwise"""
+    init = mod.func("ProtoClassMetadata.__init__")
+    asg = next((n for n in ast.walk(init) if isinstance(n, ast.Assign) and isinstance(n.targets[0], ast.Attribute) and n.targets[0].attr == table), None)
+    if asg is None or not isinstance(asg.value, ast.Name):
+        return "unknown", "its construction was not found in ProtoClassMetadata.__init__", mod.loc(init)
+    local = asg.value.id
+    for loop in [n for n in ast.walk(init) if isinstance(n, ast.For)]:
+        stores = [n for n in ast.walk(loop) if isinstance(n, ast.Assign) and isinstance(n.targets[0], ast.Subscript) and isinstance(n.targets[0].value, ast.Name)
+                  and n.targets[0].value.id == local]
+        stores += [n for n in ast.walk(loop) if isinstance(n, ast.Call) and isinstance(n.func, ast.Attribute) and n.func.attr == "setdefault" and isinstance(n.func.value, ast.Name)
+                   and n.func.value.id == local]
+        if not stores:
+            continue
+        # collections grown in this loop: X.add/append/update(...), X.setdefault(..).add(..), and local aliases of those
+        grown = set()
+        for c in ast.walk(loop):
+            if isinstance(c, ast.Call) and isinstance(c.func, ast.Attribute) and c.func.attr in ("add", "append", "update", "extend", "insert"):
+                base = c.func.value
+                while isinstance(base, ast.Call) and isinstance(base.func, ast.Attribute):
+                    base = base.func.value
+                while isinstance(base, ast.Subscript):
+                    base = base.value
+                if isinstance(base, ast.Name):
+                    grown.add(base.id)
+        for a in ast.walk(loop):
+            if isinstance(a, ast.Assign) and isinstance(a.targets[0], ast.Name):
+                src_names = {x.id for x in ast.walk(a.value) if isinstance(x, ast.Name)}
+                if src_names & grown and isinstance(a.value, (ast.Call, ast.Subscript, ast.Name)):
+                    grown.add(a.targets[0].id)
+        for st in stores:
+            val = st.value if isinstance(st, ast.Assign) else (st.args[1] if len(st.args) > 1 else None)
+            used = {x.id for x in ast.walk(val) if isinstance(x, ast.Name)} if val is not None else set()
+            hit = sorted((used & grown) - {local})
+            if hit:
+                return "stale", f"whose entries are computed from `{hit[0]}` inside the very loop that is still adding members to it (line {st.lineno})", mod.loc(st)
+        return "unknown", "filled in a loop; completeness of its entries not decided", mod.loc(stores[0])
+    return "unknown", "no store into it found", mod.loc(asg)
+
+
 def rule_O2(ctx) -> None:
     mod = ctx.repo.mod(M_INIT)
     fn = mod.func("Message.__setattr__")
     ctx.analysed("Message.__setattr__")
     attr_p = fn.args.args[1].arg
-    member_atom = ("op", "in", N(attr_p), A(A(SELF, "_betterproto"), "oneof_group_by_field"))
+    ogbf = A(A(SELF, "_betterproto"), "oneof_group_by_field")
+    member_atom = ("op", "in", N(attr_p), ogbf)
+    get_call = ("call", A(ogbf, "get"), (N(attr_p),), ())
     post_atom = CALL(N("hasattr"), SELF, C("_group_current"))
-    paths = Interp(mod, assume={member_atom: True, post_atom: True}, fork_ifexp=True).run(fn)
+    # attr is a oneof member, __post_init__ has run: whichever way the code asks
+    paths = Interp(mod, assume={member_atom: True, post_atom: True, ("op", "is", get_call, C(None)): False, get_call: True}, fork_ifexp=True).run(fn)
     ctx.count(len(paths))
     if not paths:
         raise AnalysisError("__setattr__: no path")
-    # within one abstract iteration over the group's members, both arms must exist across paths:
+    # The loop over the members of the group is evaluated for one abstract member X; a path decides whether X is the assigned
+    # member (X.name == attr).  Per class of iteration: the assigned member is recorded as the selection (inside the loop or
+    # unconditionally outside it), every other member is reset to the placeholder, and nobody else is recorded.
     rec, reset, final = 0, 0, 0
     bad_return = False
+    missing_reset = missing_rec = wrong_rec = None
     for p in paths:
+        if p.outcome == "raise":
+            continue
         if p.outcome == "return" and not any(e.kind == "call" and dotted(e.data[1]) == "super().__setattr__" and not e.loops for e in p.events):
             bad_return = True
+        eq = None
+        for k, v in p.valuation.items():
+            if k[0] == "op" and k[1] == "==" and N(attr_p) in k[2:] and any(t[0] == "a" and t[2] == "name" for t in k[2:]):
+                eq = v
+        in_loop = any(e.kind == "loop" for e in p.events)
+        p_rec = p_reset = False
         for e in p.events:
-            if e.kind == "store" and e.data[0][0] == "sub" and e.data[0][1] == A(SELF, "_group_current") and e.loops:
-                # _group_current[group] = <member name equal to attr>
-                rec += 1
+            if e.kind == "store" and e.data[0][0] == "sub" and e.data[0][1] == A(SELF, "_group_current"):
+                v = e.data[1]
+                names_attr = v == N(attr_p) or (v[0] == "a" and v[2] == "name" and eq is True)
+                if names_attr:
+                    p_rec = True
+                    rec += 1
+                else:
+                    wrong_rec = wrong_rec or (p, e)
             if e.kind == "call" and dotted(e.data[1]) == "super().__setattr__" and e.loops and e.data[2][-1] == PLACEHOLDER:
+                p_reset = True
                 reset += 1
             if e.kind == "call" and dotted(e.data[1]) == "super().__setattr__" and not e.loops and e.data[2] and e.data[2][0] == N(attr_p):
                 final += 1
+        if in_loop and eq is False and not p_reset:
+            missing_reset = missing_reset or p
+        if in_loop and eq is not False and not p_rec:
+            missing_rec = missing_rec or p
     name = "__setattr__:oneof-bookkeeping"
     if bad_return:
         ctx.refuted("O2", name, "early-return", mod.loc(fn), "a path through __setattr__ for a oneof member returns before the final store")
@@ -571,23 +636,49 @@ def rule_O2(ctx) -> None:
         ctx.refuted("O2", name, "no-final-store", mod.loc(fn), "not every path performs the final raw store of the assigned value")
     else:
         ctx.proved("O2", name, mod.loc(fn), f"{len(paths)} paths: record + reset + final store")
-    # the record arm is selected by equality with the assigned name, the reset arm by its negation
-    g = CFG(fn, implicit_exc=False)
-    loops = [nd for nd in g.nodes if nd.kind == "loop"]
-    ok_sel = False
-    for n_ in ast.walk(fn):
-        if isinstance(n_, ast.If) and isinstance(n_.test, ast.Compare) and len(n_.test.ops) == 1 and isinstance(n_.test.ops[0], (ast.Eq, ast.NotEq)):
-            sides = [ast.unparse(n_.test.left), ast.unparse(n_.test.comparators[0])]
-            if attr_p in sides and any(s.endswith(".name") for s in sides):
-                eq_body, ne_body = (n_.body, n_.orelse) if isinstance(n_.test.ops[0], ast.Eq) else (n_.orelse, n_.body)
-                eq_txt = " ".join(ast.unparse(b) for b in eq_body)
-                ne_txt = " ".join(ast.unparse(b) for b in ne_body)
-                if "_group_current" in eq_txt and "PLACEHOLDER" in ne_txt and "PLACEHOLDER" not in eq_txt:
-                    ok_sel = True
-    if ok_sel:
-        ctx.proved("O2", "__setattr__:record-selected/reset-others", mod.loc(fn))
+    sel = "__setattr__:record-selected/reset-others"
+    if wrong_rec:
+        ctx.refuted("O2", sel, "records-a-sibling", f"{mod.rel}:{wrong_rec[1].line}",
+                    f"_group_current of the group is set to {show(wrong_rec[1].data[1])}, which is not (known to be) the assigned member", "m.a = 1; which_one_of(m, 'g')")
+    elif missing_reset:
+        ctx.refuted("O2", sel, "sibling-not-reset", mod.loc(fn), "a member of the group other than the assigned one is not reset to the placeholder on some path",
+                    "m.a = 1; m.b = 2; bytes(m) contains both")
+    elif missing_rec:
+        ctx.refuted("O2", sel, "selection-not-recorded", mod.loc(fn), "on some path the assigned member is not recorded as the selection of its group", "m.a = 1; which_one_of(m, 'g')")
+    elif rec and reset:
+        # the members that are reset come from a table of the class metadata: the complete member set of the group, or a
+        # table whose construction can be shown not to be a snapshot of a half-built set
+        tables = set()
+        for p in paths:
+            for e in p.events:
+                if e.kind == "loop" and isinstance(e.data, tuple):
+                    t = e.data
+                    for _ in range(6):      # the iterated container: strip subscripts / method calls down to _betterproto.<table>
+                        if t[0] == "sub":
+                            t = t[1]
+                        elif t[0] == "call" and t[1][0] == "a":
+                            t = t[1][1]
+                        elif t[0] == "call" and t[2]:
+                            t = t[2][0]
+                        else:
+                            break
+                    if t[0] == "a" and t[1] == A(SELF, "_betterproto"):
+                        tables.add(t[2])
+        other = sorted(tables - {"oneof_field_by_group"})
+        if not tables:
+            ctx.inconclusive("O2", sel, "the members to reset do not come from a table of the class metadata", mod.loc(fn))
+        elif other:
+            verdict, why, loc = _table_snapshot(mod, other[0])
+            if verdict == "stale":
+                ctx.refuted("O2", sel, f"stale-table:{other[0]}", loc,
+                            f"the members to reset are taken from {other[0]}, {why}: members registered later are missing from the entries of earlier ones and are not reset",
+                            "select the later-declared member, then assign the earlier-declared one; copy / encode")
+            else:
+                ctx.inconclusive("O2", sel, f"the members to reset are taken from {other[0]}, whose completeness is not established ({why})", loc)
+        else:
+            ctx.proved("O2", sel, mod.loc(fn), "assigned member recorded, every other member of oneof_field_by_group[group] reset")
     else:
-        ctx.inconclusive("O2", "__setattr__:record-selected/reset-others", "member loop does not have the shape `if field.name == attr: record else: reset`", mod.loc(fn))
+        ctx.inconclusive("O2", sel, "member loop not recognised", mod.loc(fn))
     # the selection is recorded whatever the value is (also for the type default): no test of `value` guards the bookkeeping
     val_p = fn.args.args[2].arg
     guarded = False
